@@ -1,27 +1,42 @@
-"""py2lean (gates): translate the straight-line decision code of the two injection gates from the Python AST into
-Lean definitions, regenerated into lean/Operon/Gen/GatesTranslated.lean on every run of ./check C10.
+"""py2lean (gates): translate the decision code of the two injection gates from the Python AST into Lean definitions,
+regenerated into lean/Operon/Gen/GatesTranslated.lean on every run of ./check C10.
 
 Translated (namespace Operon.Gates.Tr):
-  checkRateLimit   Membrane._check_rate_limit                      : Membrane -> now -> Bool x List Nat
-  filterTail       Membrane.filter from `allowed = ...` to the end  : Membrane -> content -> matched -> level -> Membrane x FilterOut
-                   (audit append, counters, immune memory, on_threat hook - in source order; `self._log_result(...)`
-                    is inlined)
-  innateAllow      the `allowed = (...)` rule of InnateImmunity.check
-  totalSeverity, patternCount, newLevel   the head of InnateImmunity._evaluate_inflammation
+  checkRateLimit   Membrane._check_rate_limit                     : Membrane -> now -> Bool x List Nat
+  filter           Membrane.filter, WHOLE, by symbolic execution  : Env -> Membrane -> now -> content -> Membrane x FilterOut
+  innateAllow      the allow rule of InnateImmunity.check
+  newLevel         the level chain of the inflammation function
   lengthValidate, charsetValidate, jsonValidate   the `validate` methods of the three shipped validators
 The theorems `c10_translation_agrees_*` (Props/C10.lean) state that each translation computes exactly what the
 hand-written model computes; so the property theorems are theorems about the translated source.
 
-Supported subset - nothing more: `if` / `elif` / `else`, early `return`, assignments to locals, comparisons of
-naturals, `and` / `or` / `not`, `len(x)`, `x in content`, `X.value`, enum members (read from the class body), integer
-literals and `+` `*`; `self.<field> is None` as the first test on an optional field; `now - <seconds>` kept symbolic
-and moved across the comparison (`t > now - k`  ->  `t + k > now`, no truncated subtraction); list comprehension
-filter; `.append`, `+= 1`, `.add` on the modelled fields; `with <lock>:` transparent; console prints dropped;
-`if self.on_threat: self.on_threat(result)` -> the hook adversary of the model, whose exception aborts the rest;
-`for i, ch in enumerate(content): code = ord(ch); if <test>: return ...` -> `content.any`; `try: x = json.loads(content)
-... except (<classes>): return ...` -> a match on the recorded outcome of `json.loads`, an exception class that is
-not caught propagates.  `self._measure_depth(parsed)` is the model's `measure` (its recursion is not translated).
-Anything else -> the definition becomes `untranslatable "<why>"` (a default value), and its agreement theorem fails.
+How the tie is kept robust against behaviour-preserving rewrites (and only those):
+  * methods are found through the CALL GRAPH from the public entry points (`filter`, `check`) and inlined wherever
+    they are defined and whatever they are called (values returned through a continuation, so early `return` and a
+    trailing `if` give the same term; `if not c: A else: B` is emitted as `if c then B else A`); generator methods
+    made of `yield from` are concatenations;
+  * local names never reach the output (generated names); the pieces of `check` are located by ROLE (the fields of the
+    InnateCheckResult it builds, the running maximum of the pattern loop, the method whose result is the
+    `inflammation=` field and the roles of its arguments), single-assignment locals and pure one-expression helpers
+    are expanded;
+  * module / class constants and enum members are resolved to their VALUES (through the imported module when the
+    harness passes it, else literal module-level assignments);
+  * logging / warnings calls, console output, docstrings, annotations, timing values, f-strings and anything that only
+    feeds them are no-ops; methods not reachable from the entry points (`__repr__`, new read-only accessors, new
+    optional parameters of other methods) are never looked at.
+Supported statement / expression subset otherwise: `if`/`elif`/`else`, `return`, assignments to locals, tuple
+unpacking of a helper's result, comparisons of naturals, `and`/`or`/`not`, `len`, `x in content`, `.value`, `+` `*`,
+`self.rate_limit is None`, `now - <seconds>` moved across the comparison (`t > now - k` -> `t + k > now`), the
+list-comprehension filter on `_request_times`, `.append` / `+= 1` / `.add` on the modelled fields, `with <lock>:`
+(transparent), the signature-scan loop (match, append, running maximum) over any concatenation of `self.signatures`
+and the learned patterns, `FilterResult(...)`, the hook call `if self.on_threat: self.on_threat(result)` (its
+exception aborts the rest), `for i, ch in enumerate(content): code = ord(ch); if <test>: return ...` -> `content.any`,
+`try: x = json.loads(content) ... except (<classes>): return ...` -> a match on the recorded outcome of `json.loads`.
+`self._measure_depth(parsed)` is the model's `measure` (its recursion is not translated).  The ghost tag of a result
+(rate / replay / scan) is assigned from the path: inside the true branch of the rate-check helper, inside the true
+branch of the `_blocked_hashes` membership test, otherwise scan.
+Anything else -> that definition becomes `untranslatable "<why>"` (a default value) and ITS agreement theorem fails;
+the generated file stays well-formed.
 """
 from __future__ import annotations
 
@@ -81,6 +96,10 @@ def is_print(st):
 # expressions.  env: python source text of a name / attribute / call  ->  (lean term, type)
 # types: nat, bool, str (List Nat), list, time, ('tminus', base, seconds)
 # ------------------------------------------------------------------------------------------------------------------
+MODULE_CONSTS = {}      # name -> int | str : module-level constants of the file being translated, resolved to
+                        # their VALUES through the imported module (set by generate())
+
+
 class Expr:
     def __init__(self, env, enums=None):
         self.env = dict(env)
@@ -93,6 +112,9 @@ class Expr:
         k = self.key(node)
         if k in self.env:
             return self.env[k]
+        if isinstance(node, ast.Name) and node.id in MODULE_CONSTS:
+            v = MODULE_CONSTS[node.id]
+            return self.tr(ast.copy_location(ast.Constant(value=v), node))
         if isinstance(node, ast.Constant):
             if isinstance(node.value, bool):
                 return ("true" if node.value else "false"), "bool"
@@ -148,6 +170,10 @@ class Expr:
     def compare(self, node):
         op, l, r = node.ops[0], node.left, node.comparators[0]
         if isinstance(op, (ast.In, ast.NotIn)):
+            if isinstance(r, ast.Name) and isinstance(MODULE_CONSTS.get(r.id), str):
+                r = ast.copy_location(ast.Constant(value=MODULE_CONSTS[r.id]), r)
+            if isinstance(l, ast.Name) and isinstance(MODULE_CONSTS.get(l.id), str) and l.id not in self.env:
+                l = ast.copy_location(ast.Constant(value=MODULE_CONSTS[l.id]), l)
             a, ta = self.tr(l) if not (isinstance(l, ast.Constant) and isinstance(l.value, str)) else (None, None)
             if isinstance(r, ast.Constant) and isinstance(r.value, str) and ta == "nat":
                 # char in '<literal>'  (the loop variable is the code point)
@@ -178,247 +204,684 @@ IND = "  "
 
 
 # ------------------------------------------------------------------------------------------------------------------
-# Membrane._check_rate_limit
+# Membrane: whole-method translation by symbolic execution with helper inlining
 # ------------------------------------------------------------------------------------------------------------------
-def tr_check_rate_limit(tree):
-    f = find_fn(find_class(tree, "Membrane"), "_check_rate_limit")
-    body = [s for s in f.body if not is_docstring(s)]
-    # first statement: `if self.rate_limit is None: return False`
-    st = body[0]
-    if not (isinstance(st, ast.If) and isinstance(st.test, ast.Compare) and is_self(st.test.left, "rate_limit")
-            and isinstance(st.test.ops[0], ast.Is) and isinstance(st.test.comparators[0], ast.Constant)
-            and st.test.comparators[0].value is None and len(st.body) == 1 and isinstance(st.body[0], ast.Return)
-            and isinstance(st.body[0].value, ast.Constant) and st.body[0].value.value is False and not st.orelse):
-        bad(st, "expected `if self.rate_limit is None: return False` first")
-    rest = body[1:]
-    if len(rest) == 1 and isinstance(rest[0], ast.With):
-        rest = rest[0].body          # the lock is transparent here (single caller)
-    counter = [0]
+NOOP_CALL_ROOTS = {"logger", "logging", "log", "LOGGER", "_logger", "_log", "warnings"}
 
-    def block(stmts, env, ts, depth):
+
+class V:
+    """a symbolic value: kind + lean term (+ fields for results / items for tuples)"""
+    def __init__(self, kind, lean="", **kw):
+        self.kind, self.lean = kind, lean
+        self.__dict__.update(kw)
+
+
+JUNK = V("junk")
+
+
+def root_name(node):
+    while isinstance(node, (ast.Attribute, ast.Call, ast.Subscript)):
+        node = node.func if isinstance(node, ast.Call) else node.value
+    return node.id if isinstance(node, ast.Name) else None
+
+
+def has_self_call(node):
+    for n in ast.walk(node):
+        if isinstance(n, ast.Call) and isinstance(n.func, ast.Attribute) and root_name(n.func) == "self":
+            return True
+    return False
+
+
+class MembraneTx:
+    """Translates methods of `Membrane` to Lean terms of type `Membrane × <result>`.
+
+    Statements are executed symbolically in source order; the current membrane is a Lean variable that is re-bound
+    by every modelled update (`let mK : Membrane := { mJ with … }`); calls to other methods of the object are inlined
+    through the call graph (wherever defined, whatever named, values returned through a continuation; generators
+    consisting of `yield from` are concatenations); local names are replaced by generated ones; `if not c: A else: B`
+    is emitted as `if c then B else A`, so early-return and trailing-if forms coincide.  Logging, console output,
+    docstrings, annotations, timing values and anything that only feeds them are no-ops."""
+
+    def __init__(self, tree):
+        self.tree = tree
+        self.cls = find_class(tree, "Membrane")
+        self.methods = {n.name: n for n in self.cls.body if isinstance(n, ast.FunctionDef)}
+        self.levels = enum_values(tree, "ThreatLevel")
+        self.n = 0
+
+    def fresh(self, p):
+        self.n += 1
+        return f"{p}{self.n}"
+
+    # -- expressions (pure) -----------------------------------------------------------------------------------
+    def ev(self, node, env, cur):
+        k = ast.unparse(node).replace(" ", "")
+        if isinstance(node, ast.Name):
+            if node.id in env:
+                return env[node.id]
+            if node.id in MODULE_CONSTS and isinstance(MODULE_CONSTS[node.id], int):
+                return V("nat", str(MODULE_CONSTS[node.id]))
+            return JUNK
+        if isinstance(node, ast.Constant):
+            if isinstance(node.value, bool):
+                return V("bool", "true" if node.value else "false")
+            if node.value is None:
+                return V("none")
+            if isinstance(node.value, int) and node.value >= 0:
+                return V("nat", str(node.value))
+            return JUNK
+        if isinstance(node, ast.JoinedStr):
+            return JUNK
+        if isinstance(node, ast.List) and not node.elts:
+            return V("siglist", "([] : List Sig)")
+        if isinstance(node, ast.Tuple):
+            return V("tuple", items=[self.ev(e, env, cur) for e in node.elts])
+        if isinstance(node, ast.Attribute):
+            if isinstance(node.value, ast.Name) and node.value.id == "ThreatLevel" and node.attr in self.levels:
+                return V("nat", str(self.levels[node.attr]))
+            if is_self(node):
+                a = node.attr
+                if "self." + a in env:
+                    return env["self." + a]
+                return {"signatures": V("siglist", f"{cur}.sigs"), "threshold": V("nat", f"{cur}.threshold"),
+                        "rate_limit": V("onat", f"{cur}.rateLimit"), "_request_times": V("times", f"{cur}.reqTimes"),
+                        "_blocked_hashes": V("hashset", f"{cur}.blocked"), "on_threat": V("hook"),
+                        "_audit_log": V("audit"), "_learned_patterns": V("learned"),
+                        "enable_adaptive": V("bool", f"{cur}.adaptive")}.get(a, JUNK)
+            base = self.ev(node.value, env, cur)
+            if node.attr == "value" and base.kind == "nat":
+                return base
+            if base.kind == "sig" and node.attr == "level":
+                return V("siglevel", var=base.lean)
+            if base.kind == "siglevel" and node.attr == "value":
+                return base
+            if base.kind == "result":
+                f = {"allowed": "allowed", "threat_level": "level", "matched_signatures": "matched",
+                     "audit_hash": "key"}.get(node.attr)
+                if f:
+                    return base.fields[f]
+            if base.kind == "signal" and node.attr == "content":
+                return V("str", "c")
+            return JUNK
+        if isinstance(node, ast.Subscript):
+            b = self.ev(node.value, env, cur)
+            if b.kind == "hash" and ast.unparse(node.slice) == ":16":
+                return b
+            return JUNK
+        if isinstance(node, ast.Call):
+            f = node.func
+            if isinstance(f, ast.Name) and f.id == "len" and len(node.args) == 1:
+                a = self.ev(node.args[0], env, cur)
+                if a.kind in ("times", "siglist"):
+                    return V("nat", f"({a.lean}).length")
+                return JUNK
+            if isinstance(f, ast.Name) and f.id == "list" and len(node.args) == 1:
+                a = self.ev(node.args[0], env, cur)
+                return a if a.kind in ("siglist", "times") else JUNK
+            if k == "time.time()":
+                return V("time", "now")
+            if isinstance(f, ast.Attribute) and f.attr == "values" and not node.args \
+                    and self.ev(f.value, env, cur).kind == "learned":
+                return V("siglist", f"{cur}.learned")
+            # sha256(content.encode("utf-8", "surrogatepass")).hexdigest()
+            if isinstance(f, ast.Attribute) and f.attr == "hexdigest" and isinstance(f.value, ast.Call) \
+                    and ast.unparse(f.value.func) in ("hashlib.sha256", "sha256") and len(f.value.args) == 1:
+                enc = f.value.args[0]
+                if isinstance(enc, ast.Call) and isinstance(enc.func, ast.Attribute) and enc.func.attr == "encode" \
+                        and self.ev(enc.func.value, env, cur).kind == "str":
+                    args = [a.value for a in enc.args if isinstance(a, ast.Constant)] + \
+                           [kw.value.value for kw in enc.keywords if isinstance(kw.value, ast.Constant)]
+                    if "surrogatepass" in args:
+                        return V("hash", "c")
+                    bad(node, "content.encode() is strict: raises UnicodeEncodeError on a lone surrogate")
+                bad(node, "hash of something else than the content")
+            if isinstance(f, ast.Name) and f.id == "FilterResult":
+                kw = {x.arg: self.ev(x.value, env, cur) for x in node.keywords}
+                for i, a in enumerate(node.args):
+                    kw[["allowed", "threat_level", "matched_signatures", "sanitized_content", "audit_hash"][i]] = \
+                        self.ev(a, env, cur)
+                al, lv, ms, hh = (kw.get(x) for x in ("allowed", "threat_level", "matched_signatures", "audit_hash"))
+                if not (al and al.kind == "bool" and lv and lv.kind == "nat" and ms and ms.kind == "siglist"
+                        and hh and hh.kind == "hash"):
+                    bad(node, "FilterResult(...) fields")
+                return V("result", fields={"allowed": al, "level": lv, "matched": ms, "key": hh})
+            return JUNK
+        if isinstance(node, ast.UnaryOp) and isinstance(node.op, ast.Not):
+            a = self.ev(node.operand, env, cur)
+            return V("bool", f"(!{a.lean})") if a.kind == "bool" else JUNK
+        if isinstance(node, ast.BoolOp):
+            vs = [self.ev(x, env, cur) for x in node.values]
+            if all(v.kind == "bool" for v in vs):
+                return V("bool", "(" + (" && " if isinstance(node.op, ast.And) else " || ").join(v.lean for v in vs) + ")")
+            return JUNK
+        if isinstance(node, ast.BinOp) and isinstance(node.op, ast.Sub):
+            a, b = self.ev(node.left, env, cur), self.ev(node.right, env, cur)
+            if a.kind == "time" and b.kind == "nat" and b.lean.isdigit():
+                return V("tminus", a.lean, secs=int(b.lean))
+            return JUNK
+        if isinstance(node, ast.Compare) and len(node.ops) == 1:
+            op = node.ops[0]
+            a, b = self.ev(node.left, env, cur), self.ev(node.comparators[0], env, cur)
+            if isinstance(op, (ast.Is, ast.IsNot)) and b.kind == "none" and a.kind == "onat":
+                return V("isnone", a.lean, neg=isinstance(op, ast.IsNot))
+            if isinstance(op, (ast.In, ast.NotIn)) and a.kind == "hash" and b.kind == "hashset":
+                t = f"decide ({a.lean} ∈ {b.lean})"
+                return V("bool", t if isinstance(op, ast.In) else f"(!{t})", replay=isinstance(op, ast.In))
+            sym = {ast.Lt: "<", ast.LtE: "≤", ast.Gt: ">", ast.GtE: "≥", ast.Eq: "=", ast.NotEq: "≠"}.get(type(op))
+            if sym and a.kind == "nat" and b.kind == "nat":
+                return V("bool", f"decide ({a.lean} {sym} {b.lean})")
+            if sym in (">", "≥") and a.kind == "time" and b.kind == "tminus":
+                return V("bool", f"decide ({a.lean} + {b.secs} * 1000000 {sym} {b.lean})")
+            if sym in ("<", "≤") and b.kind == "time" and a.kind == "tminus":
+                flip = {"<": ">", "≤": "≥"}[sym]
+                return V("bool", f"decide ({b.lean} + {a.secs} * 1000000 {flip} {a.lean})")
+            return JUNK
+        return JUNK
+
+    # -- iterables of signatures ---------------------------------------------------------------------------------
+    def sig_iter(self, node, env, cur):
+        v = self.ev(node, env, cur)
+        if v.kind == "siglist":
+            return v.lean
+        if isinstance(node, ast.Call) and is_self(node.func) and not node.args and node.func.attr in self.methods:
+            body = [s for s in self.methods[node.func.attr].body if not is_docstring(s)]
+            parts = []
+            for s in body:
+                if isinstance(s, ast.Expr) and isinstance(s.value, ast.YieldFrom):
+                    parts.append(self.sig_iter(s.value.value, env, cur))
+                else:
+                    bad(s, "generator body other than `yield from`")
+            return "(" + " ++ ".join(parts) + ")"
+        if isinstance(node, ast.Call) and ast.unparse(node.func) in ("itertools.chain", "chain"):
+            return "(" + " ++ ".join(self.sig_iter(a, env, cur) for a in node.args) + ")"
+        if isinstance(node, ast.BinOp) and isinstance(node.op, ast.Add):
+            return f"({self.sig_iter(node.left, env, cur)} ++ {self.sig_iter(node.right, env, cur)})"
+        bad(node, f"iterable {ast.unparse(node)[:40]}")
+
+    # -- statements -----------------------------------------------------------------------------------------------
+    def is_noop(self, st):
+        if is_docstring(st) or is_print(st) or isinstance(st, ast.Pass):
+            return True
+        if isinstance(st, ast.AnnAssign) and st.value is None:
+            return True
+        if isinstance(st, ast.Expr) and isinstance(st.value, ast.Call) and root_name(st.value.func) in NOOP_CALL_ROOTS \
+                and not has_self_call(st.value):
+            return True
+        if isinstance(st, ast.If) and not has_self_call(st.test):
+            return all(self.is_noop(x) for x in st.body) and all(self.is_noop(x) for x in st.orelse)
+        return False
+
+    def upd(self, cur, field, expr, depth):
+        n = self.fresh("m")
+        return n, f"{IND * depth}let {n} : Membrane := {{ {cur} with {field} := {expr} }}\n"
+
+    def run(self, stmts, env, cur, ghost, ret, depth, stack):
         pad = IND * depth
         if not stmts:
-            bad(f, "falls off the end")
+            return ret(V("none"), env, cur, ghost, depth)
         st, more = stmts[0], stmts[1:]
-        ex = Expr(env)
+        if self.is_noop(st):
+            return self.run(more, env, cur, ghost, ret, depth, stack)
+        if isinstance(st, ast.With):
+            return self.run(st.body + more, env, cur, ghost, ret, depth, stack)       # locks are transparent here
+        if isinstance(st, ast.AnnAssign):
+            st = ast.copy_location(ast.Assign(targets=[st.target], value=st.value), st)
+        # ---- calls that must be inlined: x = self.f(..) | return self.f(..) | self.f(..) | if self.f(..):
+        call, how = None, None
+        if isinstance(st, ast.Assign) and self.self_call(st.value):
+            call, how = st.value, "assign"
+        elif isinstance(st, ast.Return) and st.value is not None and self.self_call(st.value):
+            call, how = st.value, "return"
+        elif isinstance(st, ast.Expr) and self.self_call(st.value):
+            call, how = st.value, "expr"
+        elif isinstance(st, ast.If) and self.self_call(st.test):
+            call, how = st.test, "if"
+        elif isinstance(st, ast.If) and isinstance(st.test, ast.UnaryOp) and isinstance(st.test.op, ast.Not) \
+                and self.self_call(st.test.operand):
+            call, how = st.test.operand, "ifnot"
+        if call is not None:
+            name = call.func.attr
+            if name in stack or len(stack) > 6:
+                bad(st, "recursive helper")
+            fn = self.methods[name]
+            params = [a.arg for a in fn.args.args][1:]
+            if call.keywords or len(call.args) != len(params):
+                bad(st, f"call of {name} with keywords / defaults")
+            callee_env = {p: self.ev(a, env, cur) for p, a in zip(params, call.args)}
+            touches_rate = any(is_self(n, "rate_limit") for n in ast.walk(fn))
+
+            def k(v, _cenv, cur2, ghost2, depth2):
+                if how == "assign":
+                    return self.run(more, self.bind(st.targets[0], v, env), cur2, ghost, ret, depth2, stack)
+                if how == "return":
+                    return ret(v, env, cur2, ghost2, depth2)
+                if how == "expr":
+                    return self.run(more, env, cur2, ghost, ret, depth2, stack)
+                if v.kind != "bool" or v.lean not in ("true", "false"):
+                    bad(st, "helper used as a test must return a boolean constant on every path")
+                taken = (v.lean == "true") != (how == "ifnot")
+                g = ".rate" if (touches_rate and v.lean == "true") else ghost
+                return self.run((st.body if taken else st.orelse) + more, env, cur2, g, ret, depth2, stack)
+            return self.run([x for x in fn.body], callee_env, cur, ghost, k, depth, stack + [name])
+        # ---- plain statements
+        if isinstance(st, ast.Return):
+            v = self.ev(st.value, env, cur) if st.value is not None else V("none")
+            return ret(v, env, cur, ghost, depth)
         if isinstance(st, ast.Assign) and len(st.targets) == 1:
             tg = st.targets[0]
-            if isinstance(tg, ast.Name):
-                if ast.unparse(st.value).replace(" ", "") == "time.time()":
-                    env2 = dict(env)
-                    env2[tg.id] = ("now", "time")
-                    return block(more, env2, ts, depth)
-                t, ty = ex.tr(st.value)
-                env2 = dict(env)
-                if isinstance(ty, tuple):
-                    env2[tg.id] = (t, ty)
-                    return block(more, env2, ts, depth)
-                env2[tg.id] = (f"v_{tg.id}", ty)
-                return f"{pad}let v_{tg.id} := {t}\n" + block(more, env2, ts, depth)
             if is_self(tg, "_request_times"):
                 v = st.value
                 if isinstance(v, ast.ListComp) and len(v.generators) == 1 and isinstance(v.elt, ast.Name) \
                         and isinstance(v.generators[0].target, ast.Name) and v.elt.id == v.generators[0].target.id \
-                        and is_self(v.generators[0].iter, "_request_times") and len(v.generators[0].ifs) == 1:
-                    var = v.elt.id
-                    env3 = dict(env)
-                    env3[var] = (var, "time")
-                    cond = Expr(env3).bool(v.generators[0].ifs[0])
-                    counter[0] += 1
-                    n = f"ts{counter[0]}"
+                        and self.ev(v.generators[0].iter, env, cur).kind == "times" and len(v.generators[0].ifs) == 1:
                     env2 = dict(env)
-                    env2["self._request_times"] = (n, "list")
-                    return f"{pad}let {n} := {ts}.filter (fun {var} => {cond})\n" + block(more, env2, n, depth)
+                    env2[v.elt.id] = V("time", "t")
+                    c = self.ev(v.generators[0].ifs[0], env2, cur)
+                    if c.kind != "bool":
+                        bad(st, "filter condition on _request_times")
+                    n, line = self.upd(cur, "reqTimes", f"{cur}.reqTimes.filter (fun t => {c.lean})", depth)
+                    return line + self.run(more, env, n, ghost, ret, depth, stack)
                 bad(st, "assignment to _request_times")
-            bad(st, "assignment target")
-        if isinstance(st, ast.Expr) and isinstance(st.value, ast.Call) and isinstance(st.value.func, ast.Attribute) \
-                and st.value.func.attr == "append" and is_self(st.value.func.value, "_request_times") \
-                and len(st.value.args) == 1:
-            t, ty = ex.tr(st.value.args[0])
-            if ty != "time":
-                bad(st, "appending a non-timestamp")
-            counter[0] += 1
-            n = f"ts{counter[0]}"
-            env2 = dict(env)
-            env2["self._request_times"] = (n, "list")
-            return f"{pad}let {n} := {ts} ++ [{t}]\n" + block(more, env2, n, depth)
-        if isinstance(st, ast.If):
-            c = ex.bool(st.test)
-            return (f"{pad}if {c} then\n" + block(st.body + more, env, ts, depth + 1)
-                    + f"{pad}else\n" + block(st.orelse + more, env, ts, depth + 1))
-        if isinstance(st, ast.Return):
-            if isinstance(st.value, ast.Constant) and isinstance(st.value.value, bool):
-                return f"{pad}({'true' if st.value.value else 'false'}, {ts})\n"
-            bad(st, "return value")
-        bad(st, f"statement {type(st).__name__}")
-
-    env = {"self.rate_limit": ("rl", "nat"), "self._request_times": ("m.reqTimes", "list")}
-    inner = block(rest, env, "m.reqTimes", 2)
-    return ("def Tr.checkRateLimit (m : Membrane) (now : Nat) : Bool × List Nat :=\n"
-            "  match m.rateLimit with\n  | none => (false, m.reqTimes)\n  | some rl =>\n" + inner)
-
-
-# ------------------------------------------------------------------------------------------------------------------
-# tail of Membrane.filter
-# ------------------------------------------------------------------------------------------------------------------
-def tr_filter_tail(tree):
-    cls = find_class(tree, "Membrane")
-    f = find_fn(cls, "filter")
-    idx = next((i for i, s in enumerate(f.body) if isinstance(s, ast.Assign) and len(s.targets) == 1
-                and isinstance(s.targets[0], ast.Name) and s.targets[0].id == "allowed"), None)
-    if idx is None:
-        bad(f, "no `allowed = ...` in filter")
-    tail = f.body[idx:]
-    log_result = find_fn(cls, "_log_result")
-    counter = [0]
-    base_env = {"max_level.value": ("lvl", "nat"), "self.threshold.value": ("m.threshold", "nat")}
-
-    def fresh(cur, upd):
-        counter[0] += 1
-        n = f"m{counter[0]}"
-        return n, f"let {n} : Membrane := {{ {cur} with {upd} }}\n"
-
-    def block(stmts, env, cur, res, depth):
-        """cur = name of the current Membrane value, res = lean name of the result object (or None)"""
-        pad = IND * depth
-        if not stmts:
-            bad(f, "falls off the end")
-        st, more = stmts[0], stmts[1:]
-        ex = Expr(env)
-        if is_print(st) or is_docstring(st):
-            return block(more, env, cur, res, depth)
-        if isinstance(st, ast.Assign) and len(st.targets) == 1 and isinstance(st.targets[0], ast.Name):
-            name = st.targets[0].id
-            v = st.value
-            if isinstance(v, ast.Call) and isinstance(v.func, ast.Name) and v.func.id == "FilterResult":
-                kw = {k.arg: k.value for k in v.keywords}
-                want = {"allowed": "allowed", "threat_level": "max_level", "matched_signatures": "matched",
-                        "audit_hash": "content_hash"}
-                for k, src in want.items():
-                    if k not in kw or ast.unparse(kw[k]) != src:
-                        bad(st, f"FilterResult field {k}")
-                if set(kw) - set(want) - {"processing_time_ms"} or v.args:
-                    bad(st, "FilterResult arguments")
-                env2 = dict(env)
-                env2[name] = ("result", "result")
-                return f"{pad}let result : FilterRes := ⟨allowed, lvl, ms, c, .scan⟩\n" + block(more, env2, cur, "result", depth)
-            t, ty = ex.tr(v)
-            env2 = dict(env)
-            env2[name] = (name, ty)
-            return f"{pad}let {name} := {t}\n" + block(more, env2, cur, res, depth)
-        if isinstance(st, ast.AugAssign) and isinstance(st.op, ast.Add) and is_self(st.target, "_total_blocked") \
-                and isinstance(st.value, ast.Constant) and st.value.value == 1:
-            n, line = fresh(cur, f"totalBlocked := {cur}.totalBlocked + 1")
-            return pad + line + block(more, env, n, res, depth)
+            if is_self(tg):
+                bad(st, f"assignment to self.{tg.attr}")
+            v = self.ev(st.value, env, cur)
+            if v.kind == "result":
+                n = self.fresh("r")
+                f = v.fields
+                line = (f"{pad}let {n} : FilterRes := ⟨{f['allowed'].lean}, {f['level'].lean}, {f['matched'].lean}, "
+                        f"{f['key'].lean}, {ghost}⟩\n")
+                v = V("result", n, fields=f)
+                return line + self.run(more, self.bind(tg, v, env), cur, ghost, ret, depth, stack)
+            if v.kind in ("bool", "nat") and not v.lean.replace(".", "").replace("_", "").isalnum():
+                n = self.fresh("b" if v.kind == "bool" else "n")
+                extra = {k2: getattr(v, k2) for k2 in ("replay",) if hasattr(v, k2)}
+                return (f"{pad}let {n} := {v.lean}\n"
+                        + self.run(more, self.bind(tg, V(v.kind, n, **extra), env), cur, ghost, ret, depth, stack))
+            return self.run(more, self.bind(tg, v, env), cur, ghost, ret, depth, stack)
+        if isinstance(st, ast.AugAssign) and isinstance(st.op, ast.Add) and is_self(st.target) \
+                and isinstance(st.value, ast.Constant) and st.value.value == 1 \
+                and st.target.attr in ("_total_blocked", "_total_filtered"):
+            fld = {"_total_blocked": "totalBlocked", "_total_filtered": "totalFiltered"}[st.target.attr]
+            n, line = self.upd(cur, fld, f"{cur}.{fld} + 1", depth)
+            return line + self.run(more, env, n, ghost, ret, depth, stack)
         if isinstance(st, ast.Expr) and isinstance(st.value, ast.Call) and isinstance(st.value.func, ast.Attribute):
             call = st.value
-            fn = call.func
-            if fn.attr == "append" and is_self(fn.value, "_audit_log") and len(call.args) == 1 \
-                    and env.get(ast.unparse(call.args[0]), (None, None))[1] == "result":
-                n, line = fresh(cur, f"audit := {cur}.audit ++ [result]")
-                return pad + line + block(more, env, n, res, depth)
-            if fn.attr == "add" and is_self(fn.value, "_blocked_hashes") and len(call.args) == 1 \
-                    and ast.unparse(call.args[0]) == "content_hash":
-                n, line = fresh(cur, f"blocked := c :: {cur}.blocked")
-                return pad + line + block(more, env, n, res, depth)
-            if is_self(fn, "_log_result") and len(call.args) == 2 \
-                    and env.get(ast.unparse(call.args[0]), (None, None))[1] == "result":
-                # inline: def _log_result(self, result, reason)
-                params = [a.arg for a in log_result.args.args]
-                if params != ["self", "result", "reason"]:
-                    bad(log_result, "_log_result signature")
-                env2 = dict(env)
-                env2["result"] = ("result", "result")
-                env2["result.allowed"] = ("allowed", "bool")
-                return block([s for s in log_result.body if not is_docstring(s)] + [ast.Pass()] + more, env2, cur, res, depth)
-            bad(st, f"call {ast.unparse(fn)[:30]}")
-        if isinstance(st, ast.Pass):
-            return block(more, env, cur, res, depth)
+            recv = self.ev(call.func.value, env, cur)
+            args = [self.ev(a, env, cur) for a in call.args]
+            m = call.func.attr
+            if recv.kind == "audit" and m == "append" and len(args) == 1 and args[0].kind == "result" and args[0].lean:
+                n, line = self.upd(cur, "audit", f"{cur}.audit ++ [{args[0].lean}]", depth)
+                return line + self.run(more, env, n, ghost, ret, depth, stack)
+            if recv.kind == "hashset" and m == "add" and len(args) == 1 and args[0].kind == "hash":
+                n, line = self.upd(cur, "blocked", f"{args[0].lean} :: {cur}.blocked", depth)
+                return line + self.run(more, env, n, ghost, ret, depth, stack)
+            if recv.kind == "times" and m == "append" and len(args) == 1 and args[0].kind == "time":
+                n, line = self.upd(cur, "reqTimes", f"{cur}.reqTimes ++ [{args[0].lean}]", depth)
+                return line + self.run(more, env, n, ghost, ret, depth, stack)
+            if recv.kind == "junk" and root_name(call.func) != "self":
+                return self.run(more, env, cur, ghost, ret, depth, stack)      # mutation of an unmodelled local
+            bad(st, f"call {ast.unparse(call.func)[:40]}")
+        if isinstance(st, ast.For):
+            return self.scan_loop(st, more, env, cur, ghost, ret, depth, stack)
         if isinstance(st, ast.If):
-            # hook: `if self.on_threat: self.on_threat(result)`
-            if is_self(st.test, "on_threat") and not st.orelse and len(st.body) == 1 \
-                    and isinstance(st.body[0], ast.Expr) and isinstance(st.body[0].value, ast.Call) \
-                    and is_self(st.body[0].value.func, "on_threat") and len(st.body[0].value.args) == 1 \
-                    and env.get(ast.unparse(st.body[0].value.args[0]), (None, None))[1] == "result":
-                return (f"{pad}match hookRaise {cur}.onThreat {cur}.view result with\n"
-                        f"{pad}| some k => ({cur}, ⟨result, some k⟩)\n"
-                        f"{pad}| none =>\n" + block(more, env, cur, res, depth + 1))
-            # `if not self.silent: print(...)` and other print-only ifs are dropped
-            if all(is_print(s) for s in st.body) and all(is_print(s) for s in st.orelse):
-                return block(more, env, cur, res, depth)
-            env2 = dict(env)
-            env2.setdefault("result.allowed", ("allowed", "bool"))
-            c = Expr(env2 if res else env).bool(st.test)
-            return (f"{pad}if {c} then\n" + block(st.body + more, env, cur, res, depth + 1)
-                    + f"{pad}else\n" + block(st.orelse + more, env, cur, res, depth + 1))
-        if isinstance(st, ast.Return):
-            if res and isinstance(st.value, ast.Name) and env.get(st.value.id, (None, None))[1] == "result":
-                return f"{pad}({cur}, ⟨result, none⟩)\n"
-            bad(st, "return value")
+            test, body, orelse = st.test, st.body, st.orelse
+            while isinstance(test, ast.UnaryOp) and isinstance(test.op, ast.Not):
+                test, body, orelse = test.operand, orelse, body
+            # the hook: `if self.on_threat: self.on_threat(result)`
+            if is_self(test, "on_threat") and not orelse and len(body) == 1 and isinstance(body[0], ast.Expr) \
+                    and isinstance(body[0].value, ast.Call) and is_self(body[0].value.func, "on_threat") \
+                    and len(body[0].value.args) == 1:
+                r = self.ev(body[0].value.args[0], env, cur)
+                if r.kind != "result" or not r.lean:
+                    bad(st, "hook argument")
+                return (f"{pad}match hookRaise {cur}.onThreat {cur}.view {r.lean} with\n"
+                        f"{pad}| some k => ({cur}, ⟨{r.lean}, some k⟩)\n{pad}| none =>\n"
+                        + self.run(more, env, cur, ghost, ret, depth + 1, stack))
+            c = self.ev(test, env, cur)
+            if c.kind == "isnone":
+                if c.lean != f"{cur}.rateLimit":
+                    bad(st, "None test")
+                rl = self.fresh("rl")
+                env2 = dict(env)
+                env2["self.rate_limit"] = V("nat", rl)
+                a, b = (orelse, body) if c.neg else (body, orelse)
+                return (f"{pad}match {cur}.rateLimit with\n{pad}| none =>\n"
+                        + self.run(a + more, env, cur, ghost, ret, depth + 1, stack)
+                        + f"{pad}| some {rl} =>\n" + self.run(b + more, env2, cur, ghost, ret, depth + 1, stack))
+            if c.kind != "bool":
+                bad(st, f"test {ast.unparse(st.test)[:40]}")
+            if c.lean == "true":
+                return self.run(body + more, env, cur, ghost, ret, depth, stack)
+            if c.lean == "false":
+                return self.run(orelse + more, env, cur, ghost, ret, depth, stack)
+            g = ".replay" if getattr(c, "replay", False) else ghost
+            return (f"{pad}if {c.lean} then\n" + self.run(body + more, env, cur, g, ret, depth + 1, stack)
+                    + f"{pad}else\n" + self.run(orelse + more, env, cur, ghost, ret, depth + 1, stack))
         bad(st, f"statement {type(st).__name__}")
 
-    return ("def Tr.filterTail (m : Membrane) (c : Str) (ms : List Sig) (lvl : Nat) : Membrane × FilterOut :=\n"
-            + block(tail, base_env, "m", None, 1))
+    def self_call(self, node):
+        return isinstance(node, ast.Call) and is_self(node.func) and node.func.attr in self.methods \
+            and not self.is_generator(node.func.attr)
+
+    def is_generator(self, name):
+        return any(isinstance(n, (ast.Yield, ast.YieldFrom)) for n in ast.walk(self.methods[name]))
+
+    def bind(self, target, v, env):
+        env2 = dict(env)
+        if isinstance(target, ast.Name):
+            env2[target.id] = v
+        elif isinstance(target, ast.Tuple) and v.kind == "tuple" and len(v.items) == len(target.elts) \
+                and all(isinstance(e, ast.Name) for e in target.elts):
+            for e, x in zip(target.elts, v.items):
+                env2[e.id] = x
+        else:
+            bad(target, "assignment target")
+        return env2
+
+    def scan_loop(self, st, more, env, cur, ghost, ret, depth, stack):
+        """for s in <sigs>: if s.matches(content): M.append(s); if s.level.value > L.value: L = s.level"""
+        pad = IND * depth
+        if st.orelse or not isinstance(st.target, ast.Name):
+            bad(st, "for loop")
+        var = st.target.id
+        it = self.sig_iter(st.iter, env, cur)
+        body = [x for x in st.body if not self.is_noop(x)]
+        ok = len(body) == 1 and isinstance(body[0], ast.If) and not body[0].orelse
+        if ok:
+            t = body[0].test
+            ok = isinstance(t, ast.Call) and isinstance(t.func, ast.Attribute) and t.func.attr == "matches" \
+                and isinstance(t.func.value, ast.Name) and t.func.value.id == var and len(t.args) == 1 \
+                and self.ev(t.args[0], env, cur).kind == "str"
+        inner = [x for x in body[0].body if not self.is_noop(x)] if ok else []
+        ok = ok and len(inner) == 2
+        if ok:
+            ap, up = inner
+            ok = isinstance(ap, ast.Expr) and isinstance(ap.value, ast.Call) and isinstance(ap.value.func, ast.Attribute) \
+                and ap.value.func.attr == "append" and isinstance(ap.value.func.value, ast.Name) \
+                and len(ap.value.args) == 1 and ast.unparse(ap.value.args[0]) == var \
+                and env.get(ap.value.func.value.id, JUNK).kind == "siglist"
+        if ok:
+            ok = isinstance(up, ast.If) and not up.orelse and len(up.body) == 1 and isinstance(up.body[0], ast.Assign) \
+                and isinstance(up.body[0].targets[0], ast.Name) and ast.unparse(up.body[0].value) == f"{var}.level" \
+                and isinstance(up.test, ast.Compare) and isinstance(up.test.ops[0], ast.Gt) \
+                and ast.unparse(up.test.left) == f"{var}.level.value" \
+                and ast.unparse(up.test.comparators[0]) == f"{up.body[0].targets[0].id}.value" \
+                and env.get(up.body[0].targets[0].id, JUNK).kind == "nat"
+        if not ok:
+            bad(st, "loop is not the signature scan (match, append, running maximum)")
+        mname, lname_ = ap.value.func.value.id, up.body[0].targets[0].id
+        hits, m2, l2 = self.fresh("hits"), self.fresh("ms"), self.fresh("lv")
+        env2 = dict(env)
+        env2[mname] = V("siglist", m2)
+        env2[lname_] = V("nat", l2)
+        return (f"{pad}let {hits} := matched env {it} c\n"
+                f"{pad}let {m2} := {env[mname].lean} ++ {hits}\n"
+                f"{pad}let {l2} := maxFrom {env[lname_].lean} {hits}\n"
+                + self.run(more, env2, cur, ghost, ret, depth, stack))
+
+
+def tr_membrane_piece(tree, key):
+    return tr_membrane(tree, only=key)[key]
+
+
+def tr_membrane(tree, only=None):
+    out = {}
+    tx = MembraneTx(tree)
+    if only == "filter":
+        return {"filter": _tr_filter(tree)}
+
+    def ret_rate(v, env, cur, ghost, depth):
+        if v.kind != "bool":
+            bad(tx.methods["_check_rate_limit"], "_check_rate_limit must return a boolean")
+        return f"{IND * depth}({v.lean}, {cur}.reqTimes)\n"
+    body = tx.run(list(tx.methods["_check_rate_limit"].body), {}, "m", ".scan", ret_rate, 1, ["_check_rate_limit"])
+    out["checkRateLimit"] = "def Tr.checkRateLimit (m : Membrane) (now : Nat) : Bool × List Nat :=\n" + body
+    if only == "checkRateLimit":
+        return out
+    out["filter"] = _tr_filter(tree)
+    return out
+
+
+def _tr_filter(tree):
+    tx2 = MembraneTx(tree)
+    f = tx2.methods["filter"]
+    params = [a.arg for a in f.args.args][1:]
+    if len(params) != 1:
+        bad(f, "filter signature")
+
+    def ret_filter(v, env, cur, ghost, depth):
+        if v.kind != "result" or not v.lean:
+            bad(f, "filter must return the FilterResult it booked")
+        return f"{IND * depth}({cur}, ⟨{v.lean}, none⟩)\n"
+    body = tx2.run(list(f.body), {params[0]: V("signal")}, "m", ".scan", ret_filter, 1, ["filter"])
+    return "def Tr.filter (env : Env) (m : Membrane) (now : Nat) (c : Str) : Membrane × FilterOut :=\n" + body
 
 
 # ------------------------------------------------------------------------------------------------------------------
-# innate: allow rule, inflammation head
+# innate: allow rule, inflammation level — located by ROLE through the call graph, not by local names
 # ------------------------------------------------------------------------------------------------------------------
+class Subst(ast.NodeTransformer):
+    def __init__(self, m):
+        self.m = m
+
+    def visit_Name(self, node):
+        return self.m.get(node.id, node)
+
+
+def single_defs(fn):
+    """locals assigned exactly once, at the top level of the function body: name -> value expression"""
+    count, val = {}, {}
+    for n in ast.walk(fn):
+        tg = None
+        if isinstance(n, ast.Assign) and len(n.targets) == 1 and isinstance(n.targets[0], ast.Name):
+            tg = n.targets[0].id
+        elif isinstance(n, ast.AnnAssign) and isinstance(n.target, ast.Name) and n.value is not None:
+            tg = n.target.id
+        elif isinstance(n, ast.AugAssign) and isinstance(n.target, ast.Name):
+            count[n.target.id] = count.get(n.target.id, 0) + 2
+        if tg:
+            count[tg] = count.get(tg, 0) + 1
+    for n in fn.body:
+        if isinstance(n, ast.Assign) and len(n.targets) == 1 and isinstance(n.targets[0], ast.Name) \
+                and count.get(n.targets[0].id) == 1:
+            val[n.targets[0].id] = n.value
+        elif isinstance(n, ast.AnnAssign) and isinstance(n.target, ast.Name) and n.value is not None \
+                and count.get(n.target.id) == 1:
+            val[n.target.id] = n.value
+    return val
+
+
+def kwargs_of(call, fields):
+    kw = {k.arg: k.value for k in call.keywords}
+    for i, a in enumerate(call.args):
+        if i < len(fields):
+            kw[fields[i]] = a
+    return kw
+
+
+def pure_helper_expr(cls_methods, call):
+    """`self.h(a, b)` where h's body (docstrings / logging aside) is a single `return <expr>`: the expression with the
+    parameters replaced by the arguments"""
+    fn = cls_methods.get(call.func.attr)
+    if fn is None:
+        return None
+    body = [s for s in fn.body if not is_docstring(s) and not is_print(s)
+            and not (isinstance(s, ast.Expr) and isinstance(s.value, ast.Call) and root_name(s.value.func) in NOOP_CALL_ROOTS)]
+    if len(body) != 1 or not isinstance(body[0], ast.Return) or body[0].value is None:
+        return None
+    params = [a.arg for a in fn.args.args][1:]
+    if call.keywords or len(call.args) != len(params):
+        return None
+    import copy
+    return Subst(dict(zip(params, call.args))).visit(copy.deepcopy(body[0].value))
+
+
+class RoleExpr(Expr):
+    """Expr with role-resolved leaves: `special(node)` is consulted first; single-assignment locals and pure helpers
+    are expanded"""
+    def __init__(self, special, defs, methods, enums):
+        super().__init__({}, enums)
+        self.special, self.defs, self.methods, self.depth = special, defs, methods, 0
+
+    def tr(self, node):
+        r = self.special(node, self)
+        if r is not None:
+            return r
+        if self.depth < 8:
+            if isinstance(node, ast.Name) and node.id in self.defs:
+                self.depth += 1
+                try:
+                    return self.tr(self.defs[node.id])
+                finally:
+                    self.depth -= 1
+            if isinstance(node, ast.Call) and is_self(node.func) and node.func.attr in self.methods:
+                e = pure_helper_expr(self.methods, node)
+                if e is not None:
+                    self.depth += 1
+                    try:
+                        return self.tr(e)
+                    finally:
+                        self.depth -= 1
+        if isinstance(node, ast.UnaryOp) and isinstance(node.op, ast.Not):
+            t, ty = self.tr(node.operand)
+            if ty == "count":
+                return f"decide ({t} = 0)", "bool"
+            if ty == "bool":
+                return f"(!{t})", "bool"
+        return super().tr(node)
+
+
+def find_calls(fn, pred):
+    return [n for n in ast.walk(fn) if isinstance(n, ast.Call) and pred(n)]
+
+
 def tr_innate(tree):
     cls = find_class(tree, "InnateImmunity")
+    methods = {n.name: n for n in cls.body if isinstance(n, ast.FunctionDef)}
     enums = {"InflammationLevel": enum_values(tree, "InflammationLevel")}
-    out = []
-    chk = find_fn(cls, "check")
-    st = next((s for s in chk.body if isinstance(s, ast.Assign) and len(s.targets) == 1
-               and isinstance(s.targets[0], ast.Name) and s.targets[0].id == "allowed"), None)
-    if st is None:
-        bad(chk, "no `allowed = ...` in check")
-    env = {"max_severity": ("maxSev", "nat"), "self.severity_threshold": ("thr", "nat"),
-           "structural_errors": ("nErr", "count"), "inflammation.level": ("lvl", "nat")}
-    out.append("/-- translation of the allow rule of `InnateImmunity.check` -/\n"
-               "def Tr.innateAllow (maxSev thr nErr lvl : Nat) : Bool :=\n  " + Expr(env, enums).bool(st.value) + "\n")
-    ev = find_fn(cls, "_evaluate_inflammation")
-    body = [s for s in ev.body if not is_docstring(s)]
-    env2 = {"patterns": ("nPat", "count"), "errors": ("nErr", "count"),
-            "sum((p.severityforpinpatterns))": ("sumSev", "nat"), "sum(p.severityforpinpatterns)": ("sumSev", "nat")}
-    defs = {}
-    chain = None
-    for s in body:
-        if isinstance(s, ast.Assign) and len(s.targets) == 1 and isinstance(s.targets[0], ast.Name) \
-                and s.targets[0].id in ("total_severity", "pattern_count"):
-            t, ty = Expr(env2, enums).tr(s.value)
-            if ty != "nat":
-                bad(s, "non-natural")
-            defs[s.targets[0].id] = t
-        elif isinstance(s, ast.If):
-            chain = s
+    chk = methods.get("check")
+    if chk is None:
+        bad(cls, "no check()")
+    # the function that builds the InnateCheckResult (check itself or a helper it calls)
+    reach = [chk] + [methods[c.func.attr] for c in find_calls(chk, lambda c: is_self(c.func) and c.func.attr in methods)]
+    site = None
+    for fn in reach:
+        cs = find_calls(fn, lambda c: isinstance(c.func, ast.Name) and c.func.id == "InnateCheckResult")
+        if cs:
+            site = (fn, cs[0])
             break
-        else:
-            bad(s, "statement before the level chain")
-    if chain is None or set(defs) != {"total_severity", "pattern_count"}:
-        bad(ev, "head of _evaluate_inflammation")
-    out.append("/-- translation of `total_severity = ...` -/\n"
-               f"def Tr.totalSeverity (sumSev nErr : Nat) : Nat := {defs['total_severity']}\n")
-    out.append("/-- translation of `pattern_count = ...` -/\n"
-               f"def Tr.patternCount (nPat nErr : Nat) : Nat := {defs['pattern_count']}\n")
-    env3 = {"total_severity": ("totalSeverity", "nat"), "max_severity": ("maxSeverity", "nat"),
-            "pattern_count": ("patternCount", "nat"), "self.inflammation_state.is_in_cooldown()": ("cooling", "bool")}
+    if site is None:
+        bad(chk, "no InnateCheckResult(...) construction reachable from check()")
+    fn, ctor = site
+    kw = kwargs_of(ctor, ["allowed", "matched_patterns", "structural_errors", "inflammation", "processing_time_ms"])
+    for need in ("allowed", "matched_patterns", "structural_errors", "inflammation"):
+        if need not in kw:
+            bad(ctor, f"InnateCheckResult without {need}")
+    defs = single_defs(fn)
+    err_name = kw["structural_errors"].id if isinstance(kw["structural_errors"], ast.Name) else None
+    infl_name = kw["inflammation"].id if isinstance(kw["inflammation"], ast.Name) else None
+    pat_name = kw["matched_patterns"].id if isinstance(kw["matched_patterns"], ast.Name) else None
+    # the running maximum of the pattern loop: `if p.severity > N: N = p.severity`
+    max_name = None
+    for n in ast.walk(fn):
+        if isinstance(n, ast.If) and isinstance(n.test, ast.Compare) and isinstance(n.test.ops[0], ast.Gt) \
+                and isinstance(n.test.left, ast.Attribute) and n.test.left.attr == "severity" \
+                and isinstance(n.test.comparators[0], ast.Name) and len(n.body) == 1 \
+                and isinstance(n.body[0], ast.Assign) and ast.unparse(n.body[0].targets[0]) == n.test.comparators[0].id \
+                and ast.unparse(n.body[0].value) == ast.unparse(n.test.left):
+            max_name = n.test.comparators[0].id
+    if not (err_name and infl_name and max_name):
+        bad(fn, "roles (structural errors, inflammation response, running maximum) not recognised")
 
-    def level(stmts, depth):
-        pad = IND * depth
-        if len(stmts) != 1:
-            bad(ev, "level chain branch")
-        s = stmts[0]
-        if isinstance(s, ast.Assign) and ast.unparse(s.targets[0]) == "new_level":
-            t, ty = Expr(env3, enums).tr(s.value)
-            return f"{pad}{t}\n"
+    def special_allow(node, ex):
+        if isinstance(node, ast.Name):
+            if node.id == max_name:
+                return "maxSev", "nat"
+            if node.id == err_name:
+                return "nErr", "count"
+        if is_self(node, "severity_threshold"):
+            return "thr", "nat"
+        if isinstance(node, ast.Attribute) and node.attr == "level" and isinstance(node.value, ast.Name) \
+                and node.value.id == infl_name:
+            return "lvl", "nat"
+        if isinstance(node, ast.Compare) and len(node.ops) == 1 and isinstance(node.ops[0], ast.Eq) \
+                and isinstance(node.left, ast.Name) and node.left.id == err_name \
+                and isinstance(node.comparators[0], ast.List) and not node.comparators[0].elts:
+            return "decide (nErr = 0)", "bool"
+        return None
+    out = []
+    ex = RoleExpr(special_allow, {k: v for k, v in defs.items() if k not in (max_name, err_name, infl_name)}, methods, enums)
+    out.append("/-- translation of the allow rule of `InnateImmunity.check` (located through the `allowed=` field of the\n"
+               "    InnateCheckResult it builds; locals and pure helpers expanded) -/\n"
+               "def Tr.innateAllow (maxSev thr nErr lvl : Nat) : Bool :=\n  " + ex.bool(kw["allowed"]) + "\n")
+
+    # the inflammation function: the self-method whose result is the `inflammation=` field
+    src = defs.get(infl_name)
+    if not (isinstance(src, ast.Call) and is_self(src.func) and src.func.attr in methods):
+        bad(fn, "inflammation response is not the result of a method of the object")
+    ev = methods[src.func.attr]
+    params = [a.arg for a in ev.args.args][1:]
+    args = list(src.args) + [None] * (len(params) - len(src.args))
+    for k in src.keywords:
+        if k.arg in params:
+            args[params.index(k.arg)] = k.value
+    role_of = {}
+    for p, a in zip(params, args):
+        if isinstance(a, ast.Name):
+            role_of[p] = {pat_name: "patterns", err_name: "errors", max_name: "max"}.get(a.id)
+    if sorted(v for v in role_of.values() if v) != ["errors", "max", "patterns"]:
+        bad(src, "arguments of the inflammation function")
+    body = [s for s in ev.body if not is_docstring(s)]
+    # the level chain: the first top-level `if` all of whose leaves assign one and the same local an enum member
+    def leaves(node):
+        if isinstance(node, ast.If):
+            if len(node.body) != 1 or len(node.orelse) != 1:
+                return None
+            a, b = leaves(node.body[0]), leaves(node.orelse[0])
+            return None if a is None or b is None else a + b
+        if isinstance(node, ast.Assign) and len(node.targets) == 1 and isinstance(node.targets[0], ast.Name):
+            return [(node.targets[0].id, node.value)]
+        return None
+    chain, lvl_var = None, None
+    for s in body:
         if isinstance(s, ast.If):
-            return (f"{pad}if {Expr(env3, enums).bool(s.test)} then\n" + level(s.body, depth + 1)
-                    + f"{pad}else\n" + level(s.orelse, depth + 1))
-        bad(s, "level chain statement")
-    out.append("/-- translation of the `new_level` chain of `_evaluate_inflammation` -/\n"
-               "def Tr.newLevel (totalSeverity maxSeverity patternCount : Nat) (cooling : Bool) : Nat :=\n"
-               + level([chain], 1))
+            lv = leaves(s)
+            if lv and len({n for n, _ in lv}) == 1 and all(isinstance(v, ast.Attribute) and isinstance(v.value, ast.Name)
+                                                            and v.value.id == "InflammationLevel" for _, v in lv):
+                chain, lvl_var = s, lv[0][0]
+                break
+    if chain is None:
+        bad(ev, "no if-chain assigning the inflammation level (table-driven levels are not translated)")
+    edefs = single_defs(ev)
+
+    def special_level(node, ex):
+        if isinstance(node, ast.Name) and role_of.get(node.id) == "max":
+            return "maxSev", "nat"
+        if isinstance(node, ast.Name) and role_of.get(node.id) == "patterns":
+            return "nPat", "count"
+        if isinstance(node, ast.Name) and role_of.get(node.id) == "errors":
+            return "nErr", "count"
+        if isinstance(node, ast.Call) and isinstance(node.func, ast.Name) and node.func.id == "sum" and len(node.args) == 1 \
+                and isinstance(node.args[0], ast.GeneratorExp) and len(node.args[0].generators) == 1:
+            g = node.args[0].generators[0]
+            if isinstance(g.iter, ast.Name) and role_of.get(g.iter.id) == "patterns" and not g.ifs \
+                    and isinstance(g.target, ast.Name) and ast.unparse(node.args[0].elt) == f"{g.target.id}.severity":
+                return "sumSev", "nat"
+        if isinstance(node, ast.Call) and ast.unparse(node).replace(" ", "") == "self.inflammation_state.is_in_cooldown()":
+            return "cooling", "bool"
+        return None
+    ex2 = RoleExpr(special_level, edefs, methods, enums)
+
+    def level(node, depth):
+        pad = IND * depth
+        if isinstance(node, ast.If):
+            return (f"{pad}if {ex2.bool(node.test)} then\n" + level(node.body[0], depth + 1)
+                    + f"{pad}else\n" + level(node.orelse[0], depth + 1))
+        t, ty = ex2.tr(node.value)
+        return f"{pad}{t}\n"
+    out.append("/-- translation of the level chain of the inflammation function (the method whose result is the\n"
+               "    `inflammation=` field), with the locals it reads expanded -/\n"
+               "def Tr.newLevel (sumSev nPat nErr maxSev : Nat) (cooling : Bool) : Nat :=\n" + level(chain, 1))
     return out
 
 
@@ -520,7 +983,7 @@ def tr_validator(tree, clsname, lean_name, params, env):
 # ------------------------------------------------------------------------------------------------------------------
 SIGS = {
     "checkRateLimit": "def Tr.checkRateLimit (m : Membrane) (now : Nat) : Bool × List Nat :=",
-    "filterTail": "def Tr.filterTail (m : Membrane) (c : Str) (ms : List Sig) (lvl : Nat) : Membrane × FilterOut :=",
+    "filter": "def Tr.filter (env : Env) (m : Membrane) (now : Nat) (c : Str) : Membrane × FilterOut :=",
     "innate": None,
     "lengthValidate": "def Tr.lengthValidate (mn mx : Nat) (content : Str) : Out Bool :=",
     "charsetValidate": "def Tr.charsetValidate (allowCtl allowNull : Bool) (content : Str) : Out Bool :=",
@@ -528,13 +991,29 @@ SIGS = {
 }
 INNATE_FALLBACK = [
     "def Tr.innateAllow (maxSev thr nErr lvl : Nat) : Bool :=",
-    "def Tr.totalSeverity (sumSev nErr : Nat) : Nat :=",
-    "def Tr.patternCount (nPat nErr : Nat) : Nat :=",
-    "def Tr.newLevel (totalSeverity maxSeverity patternCount : Nat) (cooling : Bool) : Nat :=",
+    "def Tr.newLevel (sumSev nPat nErr maxSev : Nat) (cooling : Bool) : Nat :=",
 ]
 
 
-def generate(repo: Path):
+def module_consts(tree, module=None):
+    """module-level constants resolved to values: through the imported module when available (covers tables and
+    computed constants), else literal `NAME = <int|str>` assignments of the AST"""
+    out = {}
+    if tree is not None:
+        for n in tree.body:
+            tgt = n.targets[0] if isinstance(n, ast.Assign) and len(n.targets) == 1 else \
+                n.target if isinstance(n, ast.AnnAssign) and n.value is not None else None
+            if isinstance(tgt, ast.Name) and isinstance(n.value, ast.Constant) \
+                    and isinstance(n.value.value, (int, str)) and not isinstance(n.value.value, bool):
+                out[tgt.id] = n.value.value
+    if module is not None:
+        for k, v in vars(module).items():
+            if isinstance(v, (int, str)) and not isinstance(v, bool) and not k.startswith("__"):
+                out[k] = v
+    return out
+
+
+def generate(repo: Path, membrane_mod=None, innate_mod=None):
     info = {"unsupported": {}}
     parts = []
     try:
@@ -548,9 +1027,13 @@ def generate(repo: Path):
         itree = None
         info["unsupported"]["innate.py"] = f"does not parse: {e}"
 
+    consts = {"m": module_consts(mtree, membrane_mod), "i": module_consts(itree, innate_mod)}
+
     def attempt(key, fn, doc):
+        MODULE_CONSTS.clear()
+        MODULE_CONSTS.update(consts["m" if key in ("checkRateLimit", "filter") else "i"])
         try:
-            if (mtree if key in ("checkRateLimit", "filterTail") else itree) is None:
+            if (mtree if key in ("checkRateLimit", "filter") else itree) is None:
                 raise Unsupported("source does not parse")
             r = fn()
             parts.append((f"/-- {doc} -/\n" if not r.startswith("/--") else "") + r)
@@ -562,12 +1045,33 @@ def generate(repo: Path):
             info["unsupported"][key] = f"translator error: {e!r}"
             parts.append(f"{SIGS[key]}\n  untranslatable \"translator error\"\n")
 
-    attempt("checkRateLimit", lambda: tr_check_rate_limit(mtree), "translation of `Membrane._check_rate_limit`")
-    attempt("filterTail", lambda: tr_filter_tail(mtree),
-            "translation of `Membrane.filter` from `allowed = ...` to the end (the scan decision and its bookkeeping)")
+    memo = {}
+
+    def mem(key):
+        if "out" not in memo:
+            try:
+                memo["out"] = tr_membrane(mtree)
+            except Unsupported as e:
+                memo["out"] = e
+        if isinstance(memo["out"], Exception):
+            raise memo["out"]
+        return memo["out"][key]
+    # the two membrane pieces are translated independently so that only the affected agreement theorem fails
+    def mem_piece(key):
+        tx_out = None
+        try:
+            tx_out = tr_membrane_piece(mtree, key)
+        except Unsupported:
+            raise
+        return tx_out
+    attempt("checkRateLimit", lambda: mem_piece("checkRateLimit"), "translation of `Membrane._check_rate_limit`")
+    attempt("filter", lambda: mem_piece("filter"),
+            "translation of `Membrane.filter` with every helper it calls inlined (rate check, refusals, scan, bookkeeping, hook)")
     try:
         if itree is None:
             raise Unsupported("source does not parse")
+        MODULE_CONSTS.clear()
+        MODULE_CONSTS.update(consts["i"])
         parts.extend(tr_innate(itree))
     except Exception as e:  # noqa
         info["unsupported"]["innate"] = str(e)
@@ -596,7 +1100,7 @@ def generate(repo: Path):
     return text, info
 
 
-def run(repo: Path, lean: Path, write_if_changed):
-    text, info = generate(repo)
+def run(repo: Path, lean: Path, write_if_changed, membrane_mod=None, innate_mod=None):
+    text, info = generate(repo, membrane_mod, innate_mod)
     changed = write_if_changed(lean / "Operon" / "Gen" / "GatesTranslated.lean", text)
     return [{"id": "py2lean-gates", "facts_changed": bool(changed), "untranslatable": info["unsupported"]}]
